@@ -120,6 +120,9 @@ def main(argv):
         cases = [obj["case"]] if "case" in obj and obj["case"] else []
     else:
         cases = mod.gen_cases(tier, seed)
+        if os.environ.get("VERIF_KINDS"):          # development aid: restrict a run to some case kinds
+            kk = os.environ["VERIF_KINDS"].split(",")
+            cases = [c for c in cases if c.get("kind") in kk or c.get("mode") in kk]
     results = run_workers(pid, ctx, cases, tier) if cases else []
 
     def classify(r):
